@@ -25,7 +25,8 @@ struct Params {
 fn message(shape: u8, i: usize) -> Vec<Vec<u8>> {
     match shape {
         0 => vec![format!("m{}", i).into_bytes()],
-        1 => vec![format!("m{}", i).into_bytes(), vec![], b"third".to_vec()],
+        // (an empty frame in the middle and, with the same content, at the very end; the tag twice)
+        1 => vec![format!("m{}", i).into_bytes(), vec![], b"third".to_vec(), format!("m{}", i).into_bytes(), vec![]],
         _ => vec![format!("m{}", i).into_bytes(), rc::pattern(200_000, i as u64, 0)],
     }
 }
@@ -430,6 +431,132 @@ fn loss_scenario(ty: Ty, peers: usize, policy: u8, kind: u8) -> Verdict {
     e3::finish(v)
 }
 
+/// Several peers are lost BETWEEN two sends (not one at a time with sends in between): `peers` connections, one full
+/// round of sends, then `lost` of them go (the first ones or the last ones attached), `how`: 0 = their writes start
+/// failing (found out by sending), 1 = they close cleanly and a recv sees every end (DEALER only), 2 = they are reset
+/// and a recv sees it (DEALER only). Afterwards 2 x peers sends: with a live peer left every send that the socket had
+/// no way to know better about succeeds on exactly one LIVE connection (`how` 0: at most one failed send per lost
+/// peer); with none left every send hands the message back.
+fn mass_loss_scenario(ty: Ty, peers: usize, lost: usize, last_ones: bool, how: u8, policy: u8) -> Verdict {
+    world::reset(world::WorldCfg { nested_env: false, yields: true, select: false, policy, coop: false });
+    let conns: Vec<e3::RawConn> = (0..peers).map(|p| e3::raw_conn(&format!("P{}", p))).collect();
+    for (p, c) in conns.iter().enumerate() {
+        c.send(&rc::handshake(ty.peer_type(), Some(format!("ID{}", p).as_bytes())));
+        if ty == Ty::Req {
+            e3::make_echo_peer(*c);
+        }
+    }
+    let sock = AnySocket::new(ty, None);
+    let viol = std::rc::Rc::new(std::cell::RefCell::new(Vec::<(String, String)>::new()));
+    let viol2 = viol.clone();
+    let conns2 = conns.clone();
+    let gone: Vec<usize> = if last_ones { (peers - lost..peers).collect() } else { (0..lost).collect() };
+    let gone2 = gone.clone();
+    world::spawn_app("app", async move {
+        let mut sock = sock;
+        for c in &conns2 {
+            let _ = e3::attach_raw(sock.backend(), *c).await;
+        }
+        let mut i = 0usize;
+        let mut failures = 0usize;
+        for phase in 0..2 {
+            if phase == 1 {
+                for p in &gone2 {
+                    match how {
+                        0 => world::set_wmode(conns2[*p].from_lib, WMode::Fail(std::io::ErrorKind::BrokenPipe)),
+                        1 => {
+                            conns2[*p].eof();
+                            world::set_wmode(conns2[*p].from_lib, WMode::Fail(std::io::ErrorKind::BrokenPipe));
+                        }
+                        _ => {
+                            world::push_chunk(conns2[*p].to_lib, world::Chunk::Err(std::io::ErrorKind::ConnectionReset));
+                            world::set_wmode(conns2[*p].from_lib, WMode::Fail(std::io::ErrorKind::ConnectionReset));
+                        }
+                    }
+                }
+                if how != 0 {
+                    // the application receives: every end is seen (one error per reset at most)
+                    for _ in 0..(2 * gone2.len() + 2) {
+                        if world::until_idle(sock.recv()).await.is_none() {
+                            break;
+                        }
+                    }
+                }
+            }
+            let alive: Vec<bool> = (0..conns2.len()).map(|p| phase == 0 || !gone2.contains(&p)).collect();
+            let n_alive = alive.iter().filter(|a| **a).count();
+            for _ in 0..(if phase == 0 { conns2.len() } else { 2 * conns2.len() }) {
+                i += 1;
+                world::yield_now().await;
+                let m = vec![format!("m{}", i).into_bytes(), vec![], b"z".to_vec(), vec![]];
+                let mut wire_m = m.clone();
+                if ty == Ty::Req {
+                    wire_m.insert(0, vec![]);
+                }
+                let want = rc::encode_message(&wire_m);
+                let before: Vec<Vec<u8>> = conns2.iter().map(|c| app_part(&c.tap()).to_vec()).collect();
+                let r = sock.send(msg(&m)).await;
+                let after: Vec<Vec<u8>> = conns2.iter().map(|c| app_part(&c.tap()).to_vec()).collect();
+                match &r {
+                    Ok(()) => {
+                        let grown: Vec<usize> = (0..conns2.len()).filter(|p| after[*p].len() > before[*p].len()).collect();
+                        if grown.len() != 1 || !alive[grown[0]] || after[grown[0]][before[grown[0]].len()..] != want[..] {
+                            viol2.borrow_mut().push(("after-mass-loss/wire-not-exactly-the-message".into(), format!("send #{} returned Ok; wires grew on peers {:?}; expected exactly the message on one live peer (live: {:?})", i, grown, alive)));
+                            return;
+                        }
+                        if ty == Ty::Req {
+                            match world::until_idle(sock.recv()).await {
+                                Some(Ok(reply)) if frames_of(&reply) == m => {}
+                                other => {
+                                    viol2.borrow_mut().push(("after-mass-loss/reply".into(), format!("send #{}: echo came back as {:?}", i, other.as_ref().map(e3::show_result))));
+                                    return;
+                                }
+                            }
+                        }
+                    }
+                    Err(e) => {
+                        failures += 1;
+                        let handed_back = matches!(e, ZmqError::ReturnToSender { message, .. } if frames_of(message) == m);
+                        if n_alive == 0 {
+                            if !handed_back && failures > gone2.len() {
+                                viol2.borrow_mut().push(("after-mass-loss/no-peer-send-does-not-hand-back".into(), format!("send #{} with no peer left failed with {} without handing the message back intact", i, e3::err_class(e))));
+                                return;
+                            }
+                        } else if how != 0 || failures > gone2.len() {
+                            viol2.borrow_mut().push((
+                                "after-mass-loss/send-fails-with-live-peers".into(),
+                                format!("send #{} failed ({}) although {} peer(s) are connected and live{}", i, e3::err_class(e), n_alive, if how != 0 { " and recv has seen every lost peer's end" } else { " (more failed sends than lost peers)" }),
+                            ));
+                            return;
+                        }
+                    }
+                }
+            }
+        }
+        world::set_cond("done");
+        world::wait_cond("never").await;
+        drop(sock);
+    });
+    let end = world::run(e3::HORIZON);
+    let mut v = Verdict::default();
+    v.truncated = end != world::RunEnd::Quiescent;
+    let what = format!("{} with {} peers, one round of sends, then the {} {} attached are lost at once ({})", ty.name(), peers, lost, if last_ones { "last" } else { "first" }, ["their writes fail", "they close and recv sees it", "they are reset and recv sees it"][how as usize % 3]);
+    for p in world::panics() {
+        v.violate("panic", format!("{}: {}", what, p));
+    }
+    for (c, m) in viol.borrow().iter() {
+        v.violate(c.clone(), format!("{}: {}", what, m));
+    }
+    if viol.borrow().is_empty() && world::panics().is_empty() && !v.truncated && !world::cond("done") {
+        v.violate("after-mass-loss/app-stuck", format!("{}: the sender did not finish", what));
+    }
+    if v.truncated {
+        v.violate("spin", format!("{}: no quiescence", what));
+    }
+    v.outcome_hash = rc::fnv(e3::canon_log().join("|").as_bytes());
+    e3::finish(v)
+}
+
 /// A send is abandoned while it waits for a connection that does not accept data (what a timeout or
 /// select! around send() does), then the connection recovers: the set of connected peers never
 /// changed, so afterwards every send must succeed, consecutive successful sends must rotate strictly,
@@ -626,6 +753,10 @@ pub fn run(tier: Tier, replay: Option<String>) -> i32 {
                 let (ty, n, sh, how, pol) = (Ty::from_name(p["type"].as_str()?)?, p["peers"].as_u64()? as usize, p["shape"].as_u64()? as u8, p["how"].as_u64()? as u8, p["policy"].as_u64()? as u8);
                 return Some(std::sync::Arc::new(move || cancel_scenario(ty, n, sh, how, pol)) as zvcore::explore::Scenario);
             }
+            if p["scenario"] == "mass-loss" {
+                let (ty, n, lost, last, how, pol) = (Ty::from_name(p["type"].as_str()?)?, p["peers"].as_u64()? as usize, p["lost"].as_u64()? as usize, p["last_ones"].as_bool()?, p["how"].as_u64()? as u8, p["policy"].as_u64()? as u8);
+                return Some(std::sync::Arc::new(move || mass_loss_scenario(ty, n, lost, last, how, pol)) as zvcore::explore::Scenario);
+            }
             if p["scenario"] == "loss" {
                 let (ty, n, pol, kind) = (Ty::from_name(p["type"].as_str()?)?, p["peers"].as_u64()? as usize, p["policy"].as_u64()? as u8, p["kind"].as_u64().unwrap_or(0) as u8);
                 return Some(std::sync::Arc::new(move || loss_scenario(ty, n, pol, kind)) as zvcore::explore::Scenario);
@@ -670,6 +801,30 @@ pub fn run(tier: Tier, replay: Option<String>) -> i32 {
                                     jobs.push(e3::job(format!("C10/{}/{}p/w{}/early{}/peers-announce-{}", ty.name(), peers, wmode, early, ty.peer_types()[variant]), p, tier.pick(1, 2), tier.pick(100_000, 1_000_000), move || scenario(&pr2)));
                                 }
                             }
+                        }
+                    }
+                }
+            }
+        }
+    }
+    // several peers lost between two sends
+    for ty in [Ty::Push, Ty::Dealer, Ty::Req] {
+        for peers in 2..=tier.pick(5usize, 6usize) {
+            for lost in 1..=peers {
+                for last_ones in [false, true] {
+                    for how in 0..3u8 {
+                        // only a DEALER reads without having sent: only it sees a close or reset through recv
+                        if how != 0 && ty != Ty::Dealer {
+                            continue;
+                        }
+                        for policy in 0..tier.pick(1u8, 3u8) {
+                            jobs.push(e3::job(
+                                format!("C10/mass-loss/{}/{}p/lost{}{}/how{}/policy{}", ty.name(), peers, lost, if last_ones { "-last" } else { "-first" }, how, policy),
+                                json!({"scenario":"mass-loss","type":ty.name(),"peers":peers,"lost":lost,"last_ones":last_ones,"how":how,"policy":policy}),
+                                tier.pick(0, 1),
+                                50_000,
+                                move || mass_loss_scenario(ty, peers, lost, last_ones, how, policy),
+                            ));
                         }
                     }
                 }
